@@ -27,6 +27,15 @@ class InjectedFault(Exception):
     pass
 
 
+class FalsyInjectedFault(InjectedFault):
+    """a raised exception object that is falsy (e.g. an empty collection of rejected rows) is still a failure"""
+    def __bool__(self):
+        return False
+
+    def __len__(self):
+        return 0
+
+
 class WorldLost(Exception):
     """the world's run hung (threads still alive): the world cannot be used any further"""
 
@@ -46,6 +55,7 @@ class World:
         self.log = []            # (kind, id, extra) in global order
         self.fault_at = None     # inject InjectedFault at the k-th operation
         self.fault_hard = False
+        self.fault_falsy = False
         self.fault_fired = False
         self.opcount = 0
         self.normalising = normalising
@@ -88,6 +98,11 @@ class World:
                 w.op("mtime", s.sid)
                 return None if s.t is None else EPOCH + dt.timedelta(seconds=s.t)
 
+            def __len__(s):
+                # a value store is an ordinary object: it may define __len__ / __bool__ (e.g. number of rows it holds) and
+                # thereby be falsy; every third store is "empty" in this sense
+                return 0 if s.sid % 3 == 1 else 1
+
             def __repr__(s):
                 return "MemStore(%d)" % s.sid
         st = MemStore()
@@ -103,7 +118,7 @@ class World:
             self.fault_fired = True
             if self.fault_hard:
                 raise InjectedHardFault("hard fault at operation %d (%s %s)" % (k, kind, ident))
-            raise InjectedFault("fault at operation %d (%s %s)" % (k, kind, ident))
+            raise (FalsyInjectedFault if self.fault_falsy else InjectedFault)("fault at operation %d (%s %s)" % (k, kind, ident))
 
     def set_store(self, sid, v):
         with self.lock:
@@ -722,6 +737,8 @@ def cut_and_repair(ctx, camp, w, output, desc):
         return
     k = rng.randrange(1, total + 1)
     hard = rng.random() < 0.3
+    w.fault_falsy = (not hard) and rng.random() < 0.4
+    ctx.count("cut_exception_falsy", w.fault_falsy)
     res = w.run(output, None, workers=rng.choice([1, 3]), scheduler=rng.choice([None, "random"]), fault_at=k,
                 max_errors=rng.choice([0, 0, 1, None]), fault_hard=hard)
     cutlog = [(a, b) for a, b, _ in w.log]
